@@ -237,6 +237,17 @@ def write_evidence(prop, tier, base, ad, agg, det, reported, known_hits, wall, s
     }
     if hasattr(ad, 'evidence_extra'):
         cov.update(ad.evidence_extra(agg))
+    sens = os.path.join(core.VERIF_DIR, 'evidence', 'sensitivity-%s.json' % prop)
+    if os.path.exists(sens):
+        try:
+            with open(sens) as f:
+                sd = json.load(f)
+            cov['sensitivity_last_selftest'] = {
+                'note': 'not measured by this run: result of the last `run.py selftest %s` (textual mutants on a scratch copy)' % prop,
+                'killed': sd.get('killed'), 'tried': sd.get('tried'), 'stale': sd.get('stale'),
+                'survived': [m['id'] for m in sd.get('mutants', []) if m.get('status') not in ('killed', 'stale')]}
+        except Exception:
+            pass
     ev = {
         'property_id': prop, 'tier': tier, 'seed': base, 'level': 'exploration', 'coverage': cov,
         'assumptions': ad.ASSUMPTIONS if hasattr(ad, 'ASSUMPTIONS') else [
